@@ -141,6 +141,14 @@ def check(prop):
     if prop in ("C01", "C02"):
         nt = 4 if tier == "quick" else 6
         mc = model_check(u, nt)
+        mi = None
+        if prop == "C02":
+            # Layer B: the seven index maps; IndexesAreProjections and LookupsRefine (bucket + post-filter
+            # = Layer A comprehension) for every reachable state of one graph
+            mi = vlib.run_tlc("MemIndex", "MemIndex.cfg", gen={"StoreU.tla": storeu.storeu_tla(u, 6 if tier == "quick" else 9, ["?g1"])},
+                              workers=8, timeout=1800)
+            if mi.violation:
+                raise Infra("Layer B model MemIndex.tla does not refine Layer A: %s\n%s" % (mi.violation, mi.out[-3000:]))
         edges = os.path.join(d, "edges.ndjson")
         nedges, er = emit_edges(u, nt, edges)
         tr = os.path.join(d, "tour.ndjson")
@@ -173,6 +181,9 @@ def check(prop):
             "lookup_events": sum(n for k, n in list(st.items()) + list(st2.items()) if k.startswith("lookup:")),
             "exhaustive": st["edges_taken"] == nedges,
         })
+        if mi:
+            cov.update({"layer_b_model": "MemIndex.tla: IndexesAreProjections, LookupsRefine", "layer_b_states": mi.distinct,
+                        "layer_b_transitions": mi.generated, "index_dumps_validated": st.get("index_dumps", 0) + st2.get("index_dumps", 0)})
         for p in (tr, tr2):
             with open(p) as fh:
                 lines = fh.read().splitlines()
